@@ -134,10 +134,21 @@ class Check:
             raise SystemExit("generator failed: " + err[-2000:])
         return [l for l in out.split("\n") if l.strip()]
 
-    def run_impl(self, mode, lines, timeout=3600):
-        rc, out, err, dt = sh([BEFFH, mode, "run"], input="\n".join(lines) + "\n", timeout=timeout)
-        res = [l for l in out.split("\n") if l.strip()]
-        return res, rc, err
+    def run_impl(self, mode, lines, timeout=None):
+        """runs the Rust harness; a hang (C04) is located by bisection and answered as `(hang)`"""
+        budget = timeout or max(60, 0.05 * len(lines))
+        try:
+            rc, out, err, dt = sh([BEFFH, mode, "run"], input="\n".join(lines) + "\n", timeout=budget)
+            return [l for l in out.split("\n") if l.strip()], rc, err
+        except subprocess.TimeoutExpired:
+            if len(lines) == 1:
+                return ["(hang)\t(oracle fail c04.hang)"], 0, "timeout"
+            mid = len(lines) // 2
+            a, rc1, e1 = self.run_impl(mode, lines[:mid], timeout=max(20, budget / 2))
+            b, rc2, e2 = self.run_impl(mode, lines[mid:], timeout=max(20, budget / 2))
+            if len(a) != mid:
+                return a, rc1, e1
+            return a + b, rc2, e2
 
     def build_js(self):
         """re-strip the client runtime from /repo's working tree"""
